@@ -276,6 +276,18 @@ KinkFamily(z) ==
   \cup {Cfg("power", f, s, <<>>, <<>>, 0, NoAx, FALSE, e, 0, <<>>, "zero_base", "rr", "array", NA) :
       f \in {"func", "op"}, s \in {<<3>>, <<2, 3>>}, e \in {1, 2, 3}}
 
+
+\* ---------------------------------------------------------------- every float argument of multi-argument functions (C15 / C02 / C01)
+\* differentiating with respect to an argument for which no rule exists must raise; with a rule it must be exact.  ia = arity used.
+ArgSweepFamily(z) ==
+  {Cfg(p[1], "func", s, <<>>, <<>>, n, NoAx, FALSE, p[2], 0, <<>>, "-", "rr", "array", NA) :
+      p \in {<<"clip", 3>>, <<"gradient", 2>>, <<"interp", 3>>, <<"convolve", 2>>, <<"heaviside", 2>>, <<"copysign", 2>>, <<"ldexp", 2>>,
+             <<"nextafter", 2>>, <<"float_power", 2>>, <<"fmod", 2>>, <<"trapz", 2>>, <<"correlate", 2>>, <<"polyval", 2>>, <<"average", 2>>,
+             <<"percentile", 2>>, <<"quantile", 2>>, <<"cov", 2>>, <<"searchsorted", 2>>, <<"digitize", 2>>, <<"histogram", 2>>},
+      s \in {<<4>>, <<3>>}, n \in 0..2} \cap
+  {c \in [prim : STRING, form : {"func"}, s : {<<4>>, <<3>>}, s2 : {<<>>}, s3 : {<<>>}, argnum : 0..2, ax : {NoAx}, kd : {FALSE}, ia : 2..3, ib : {0},
+          tp : {<<>>}, st : {"-"}, kind : {"rr"}, scal : {"array"}, oshape : {NA}] : c.argnum < c.ia}
+
 Space == CASE Family = "binary" -> BinaryFamily(0)
            [] Family = "where" -> WhereFamily(0)
            [] Family = "reduce" -> ReduceFamily(0)
@@ -284,6 +296,7 @@ Space == CASE Family = "binary" -> BinaryFamily(0)
            [] Family = "rearr" -> RearrFamily(0)
            [] Family = "join" -> JoinFamily(0)
            [] Family = "kink" -> KinkFamily(0)
+           [] Family = "argsweep" -> ArgSweepFamily(0)
            [] Family = "linalg" -> LinalgFamily(0)
            [] Family = "fft" -> FftFamily(0)
            [] Family = "index" -> {c \in IndexFamily(0) : SumConsumes(c.tp, 1) <= Len(c.s) /\ Cardinality({i \in DOMAIN c.tp : c.tp[i].t = "ell"}) <= 1}
